@@ -140,6 +140,11 @@ PROPS["C12"]["quick"] += [
     {"module": "MC_C03", "cfg": "MC_C12I_quick.cfg", "nprimes": 8, "require_acts": ["Integrate", "IntegrateLogFactor"]},
     {"module": "MC_COND", "cfg": "MC_C12J_quick.cfg", "nprimes": 6, "require_acts": ["Info"]},
     {"module": "MC_PDF", "cfg": "MC_C12K_quick.cfg", "nprimes": 6, "require_acts": ["KL", "Update", "Slice"]}]
+# badly scaled inputs (condition numbers 5e2 .. 4e3, offsets >= 10 select the anisotropic menus): data-dependent branches
+for _pid, _m, _c in (("C01", "MC_C01", "MC_C01_aniso.cfg"), ("C05", "MC_PDF", "MC_C05_aniso.cfg"), ("C06", "MC_PDF", "MC_C06_aniso.cfg"),
+                     ("C13", "MC_PDF", "MC_C13a_aniso.cfg"), ("C13", "MC_COND", "MC_C13b_aniso.cfg"), ("C07", "MC_COND", "MC_C07_aniso.cfg"),
+                     ("C08", "MC_COND", "MC_C08_aniso.cfg"), ("C09", "MC_COND", "MC_C09_aniso.cfg"), ("C10", "MC_COND", "MC_C10_aniso.cfg")):
+    PROPS[_pid]["quick"].append({"module": _m, "cfg": _c, "nprimes": 14})
 PROPS["C12"]["quick"].append({"kind": "b2", "traces": 80, "length": 6, "family": "MC", "nprimes": 10})
 PROPS["C02"]["quick"].append({"kind": "b2", "traces": 60, "length": 6, "family": "MC", "nprimes": 10})
 _THOROUGH_SAMPLING = {"MC_C04M_thorough.cfg": 40, "MC_C04C_thorough.cfg": 24, "MC_C12M_thorough.cfg": 60, "MC_C12C_thorough.cfg": 12}
